@@ -46,7 +46,9 @@ ODeviations == {
   "v3.fileserver_wildcard_kept",             \* v3 file-server path keys keep `{*name}`
   "v3.fileserver_param_without_schema",      \* v3 file-server path parameter has neither schema nor content
   "v3.allow_empty_value_not_query",          \* allowEmptyValue is written for header and cookie parameters
-  "yaml.leading_newline_dropped" }           \* a description starting with a newline loses it in the YAML rendering
+  "yaml.leading_newline_dropped",            \* a description starting with a newline loses it in the YAML rendering
+  "server.required_cookie_resets_errors" }   \* the decoder assigns the result of r.Cookie() of a required cookie to the error it accumulates:
+                                             \* what query and header decoding found (missing required parameter, invalid value) is forgotten
 
 ---------------------------------------------------------------------------
 \* vocabulary
@@ -140,7 +142,13 @@ ServedOps(ms, ops) ==
 \* http/codegen/server.go + server_mount / server_handler / file_server templates: one Handle per route and
 \* service base path; the handler decodes the mapped attributes, the endpoint runs the requirements
 MountsOf(d) == ExpectedMounts(d)
-SrvOpsOf(d) == ExpectedOps(d)
+\* request_elements.go.tpl: path, query, header, then cookie elements are read in this order into one `err`
+SrvParam(m, p) ==
+  IF p.in \in {"query", "header"} /\ p.required /\ ODev("server.required_cookie_resets_errors")
+     /\ \E c \in RangeQ(m.params) : c.in = "cookie" /\ c.mode = "required"
+  THEN [p EXCEPT !.required = FALSE] ELSE p
+SrvOp(d, s, m, r) == LET e == ExpectedOp(d, s, m, r) IN [e EXCEPT !.params = {SrvParam(m, p) : p \in @}]
+SrvOpsOf(d) == UNION {UNION {{SrvOp(d, s, m, r) : r \in RangeQ(m.routes)} : m \in RangeQ(s.meths)} : s \in RangeQ(d.svcs)}
 
 \* openapi/v3/builder.go buildPaths: services -> endpoints -> routes -> full paths; `switch r.Method`
 V3Switch(v) == v \in {"GET", "PUT", "POST", "DELETE", "OPTIONS", "HEAD", "PATCH"} \/ (v = "TRACE" /\ ~ODev("v3.trace_route_dropped"))
@@ -206,7 +214,7 @@ ApiSecs == IF Varies("sec") THEN {"none", "basic", "jwt", "apikey", "basic|apike
            ELSE IF Varies("files") THEN {"none", "basic"} ELSE {"none"}
 SvcPathKinds == IF Varies("paths") THEN {"root", "lit", "var"} ELSE IF Varies("files") THEN {"root", "lit"} ELSE {"lit"}
 SvcPath(i, kind) == CASE kind = "root" -> <<>> [] kind = "lit" -> <<Lit(SvcNames[i])>> [] OTHER -> <<Lit(SvcNames[i]), Var("sid")>>
-SvcSecs == IF Varies("sec") THEN {"inherit", "none", "oauth2", "apikey"} ELSE {"inherit"}
+SvcSecs == IF Varies("sec") THEN {"inherit", "oauth2", "apikey", "basic"} ELSE {"inherit"}      \* (NoSecurity is a method-level function)
 SvcErrs == IF Varies("resps") THEN {<<>>, <<[name |-> "se1", code |-> 409]>>} ELSE {<<>>}
 FileKinds == IF Varies("files") THEN {"file", "dir", "both"} ELSE IF OFamily = "mix" THEN {"none", "file", "dir"} ELSE {"none"}
 FilesOf(i, kind) ==
@@ -269,7 +277,9 @@ PickParams ==
 PickResps ==
   /\ opc = "resps"
   /\ \E st \in Status1s, tg \in Tagged, me \in MethErrs :
-       SetMeth(LAMBDA m : [m EXCEPT !.resps = IF tg THEN <<(IF st = 201 THEN 202 ELSE 201), st>> ELSE <<st>>, !.errs = me])
+       \* a second, tagged response needs a result body: goa refuses one for 204 and for HEAD routes
+       /\ (tg => st # 204 /\ \A r \in RangeQ(CurSvc.meths[NM].routes) : r.verb # "HEAD")
+       /\ SetMeth(LAMBDA m : [m EXCEPT !.resps = IF tg THEN <<(IF st = 201 THEN 202 ELSE 201), st>> ELSE <<st>>, !.errs = me])
   /\ opc' = "sec" /\ UNCHANGED <<mounts, srvOps, doc3, doc2, verdicts>>
 PickSec ==
   /\ opc = "sec"
